@@ -1,14 +1,17 @@
 #!/bin/bash
-# usage: seed_run.sh <seed-id> <prop> [tier]  -- apply a seeded mutant to /repo, run a check, undo
+# usage: seed_run.sh <seed-id> <prop> [tier]
+# Applies a seeded mutant to a scratch worktree of /repo's HEAD (so /repo itself
+# stays untouched and other checks can run meanwhile), runs the check against it
+# with VERIF_REPO, removes the worktree.
 S=$1; P=$2; T=${3:-quick}
-cd /repo || exit 2
-if [ -n "$(git status --porcelain)" ]; then echo "/repo not clean"; exit 2; fi
-if ! git apply --check /verif/seeded/$S/patch.diff 2>/dev/null; then
-  if ! git apply -3 /verif/seeded/$S/patch.diff 2>/dev/null; then echo "APPLY-FAIL $S"; git checkout -q -- . ; git reset -q; exit 3; fi
-  git reset -q
-else
-  git apply /verif/seeded/$S/patch.diff
-fi
-cd /verif && ./check $P $T > /tmp/seedrun.$S.$P.log 2>&1; rc=$?
-git -C /repo checkout -q -- .
-echo "seed=$S check=$P exit=$rc $(grep -c '^VIOLATION' /tmp/seedrun.$S.$P.log) violation lines; $(grep -m2 'violated assertion' /tmp/seedrun.$S.$P.log | tr '\n' ';')"
+WT=/tmp/wt/seedrepo-$S-$P
+git -C /repo worktree remove --force $WT >/dev/null 2>&1
+git -C /repo worktree add -q --detach $WT HEAD || exit 2
+PATCH=/verif/seeded/$S/patch.diff
+# mutants written against the pinned commit may touch lines changed by a later "fix:" commit; a hand-rebased copy is used then
+[ -f /verif/seeded/$S/patch.rebased.diff ] && PATCH=/verif/seeded/$S/patch.rebased.diff
+if ! git -C $WT apply --check $PATCH 2>/dev/null; then echo "seed=$S check=$P APPLY-FAIL"; git -C /repo worktree remove --force $WT; exit 3; fi
+git -C $WT apply $PATCH
+cd /verif && VERIF_REPO=$WT VERIF_ROOT=/verif ./bin/gosmt check $P --tier $T -noevidence > /tmp/seedrun.$S.$P.log 2>&1; rc=$?
+git -C /repo worktree remove --force $WT
+echo "seed=$S check=$P exit=$rc violations=$(grep -c '^VIOLATION' /tmp/seedrun.$S.$P.log) :: $(grep 'violated assertion' /tmp/seedrun.$S.$P.log | sed 's/ *violated assertion VerifHarness_//;s/: .*//' | tr '\n' ' ')$(grep -m1 INCONCLUSIVE /tmp/seedrun.$S.$P.log | cut -c1-200)"
